@@ -1,4 +1,7 @@
 import WpModel.Drive.Loop
 import WpModel.Drive.LineBreak
+import WpModel.Drive.InlineRun
+import WpModel.Drive.Hyphenate
 
-def main : IO Unit := Wp.Drive.runDriver [Wp.Drive.LineBreak.handle]
+def main : IO Unit :=
+  Wp.Drive.runDriver [Wp.Drive.LineBreak.handle, Wp.Drive.InlineRun.handle, Wp.Drive.Hyphenate.handle]
